@@ -254,7 +254,7 @@ def run(ctx):
             maskok = mv == [(1 << w) - 1 for w in (9, 10, 11)]
         except (formula.Unknown, formula.Overflow):
             maskok = False
-        l = lin(val, name=lambda x: "label" if (x[0] == "field" and x[2] == "0" and "Ref" in expr_str(x)) else None)
+        l = lin(val, name=lambda x: "label" if (x[0] == "field" and str(x[2]) == "0" and x[1][0] == "downcast" and x[1][2] == "Ref") else None)
         linok = same(l, -1, [("label", 1), ("line", -1)]) or same(lin(val), -1, [("ref_label", 1), ("line", -1)])
         ldesc = show(l)
     else:
@@ -390,11 +390,13 @@ def run(ctx):
         t = sl.term(b)
         if t["k"] == "switch":
             c = sl.expr(t["a"], 6)
+            tg_ = {v: x for v, x in t["targets"]}
             if c[0] == "bin" and c[1] in ("Eq", "Ne") and ("const", 92) in (c[2], c[3]):
-                tg_ = {v: x for v, x in t["targets"]}
                 t_true = t["otherwise"] if 0 in tg_ else tg_.get(1)
                 t_false = tg_.get(0, t["otherwise"])
                 bsw.append((b, t_true if c[1] == "Eq" else t_false))
+            elif 92 in tg_ and t.get("ty") == "char":
+                bsw.append((b, tg_[92]))            # `match c { '\\' => .. }`
     ctx.need(len(bsw) == 1, "backslash test in the string lexer (found %d)" % len(bsw))
     bb_, on_bs = bsw[0]
     lps_ = [(h, body) for h, (body, latches) in kit.loops(sl).items() if bb_ in body]
